@@ -1,0 +1,121 @@
+//go:build verif
+
+// Contracts for the portmapper (portmapper.go): C27. Comment-only file.
+package absnfs
+
+//@ specdef pmMatch(m PortMapping, prog uint32, vers uint32, prot uint32) bool = m.Program == prog && m.Version == vers && m.Protocol == prot
+// Quantifiers over the registry use ABSOLUTE indices a into the slice's backing array (lo <= a < hi):
+// absidx(s, a) is a clean e-matching trigger, s[i] = absidx(s, off(s)+i) is not.
+//@ specdef lo(pm *Portmapper) mathint = off(pm.mappings)
+//@ specdef hi(pm *Portmapper) mathint = off(pm.mappings) + len(pm.mappings)
+// registry invariant: keys are unique
+//@ specdef pmUnique(pm *Portmapper) bool = forall(a, lo(pm), hi(pm), forall(b, lo(pm), hi(pm), a != b ==> !pmMatch(absidx(pm.mappings, a), absidx(pm.mappings, b).Program, absidx(pm.mappings, b).Version, absidx(pm.mappings, b).Protocol), absidx(pm.mappings, b)), absidx(pm.mappings, a))
+// abstract view of the registry: key -> port (0 = absent)
+//@ specdef pmHas(pm *Portmapper, prog uint32, vers uint32, prot uint32) bool = exists(a, lo(pm), hi(pm), pmMatch(absidx(pm.mappings, a), prog, vers, prot), absidx(pm.mappings, a))
+//@ specdef pmMaps(pm *Portmapper, prog uint32, vers uint32, prot uint32, port uint32) bool = exists(a, lo(pm), hi(pm), pmMatch(absidx(pm.mappings, a), prog, vers, prot) && absidx(pm.mappings, a).Port == port, absidx(pm.mappings, a))
+// the peer may modify the registry: in-process caller (nil) or a parseable loopback address (the property's rule)
+//@ specdef loopbackPeer(a net.Addr) bool = splitOK(addrStr(valof(a))) && ipParses(splitHost(addrStr(valof(a)))) && loopbackHost(splitHost(addrStr(valof(a))))
+//@ specdef mayModify(a net.Addr) bool = isnil(a) || loopbackPeer(a)
+//@ specdef pmSame(pm *Portmapper) bool = pm.mappings == old(pm.mappings) && forall(a, lo(pm), hi(pm), absidx(pm.mappings, a) == old(absidx(pm.mappings, a)), absidx(pm.mappings, a))
+
+//@ func peerMayModify
+//@ prop C27
+//@ pure
+//@ ensures [loopback-only] result <==> mayModify(remoteAddr)
+
+//@ func Portmapper.RegisterService
+//@ prop C27
+//@ requires pm != nil && pmUnique(pm)
+//@ modifies pm.mappings, elems(PortMapping), locks
+//@ ensures [update-in-place] old(pmHas(pm, prog, vers, prot)) ==> pm.mappings == old(pm.mappings) && forall(a, lo(pm), hi(pm), absidx(pm.mappings, a) == ite(pmMatch(old(absidx(pm.mappings, a)), prog, vers, prot), setfield(old(absidx(pm.mappings, a)), Port, port), old(absidx(pm.mappings, a))), absidx(pm.mappings, a))
+//@ ensures [append] !old(pmHas(pm, prog, vers, prot)) ==> len(pm.mappings) == old(len(pm.mappings)) + 1 && forall(a, lo(pm), hi(pm) - 1, absidx(pm.mappings, a) == oldabsidx(pm.mappings, old(lo(pm)) + (a - lo(pm))), absidx(pm.mappings, a)) && pmMatch(absidx(pm.mappings, hi(pm) - 1), prog, vers, prot) && absidx(pm.mappings, hi(pm) - 1).Port == port
+//@ ensures [set] pmMaps(pm, prog, vers, prot, port)
+//@ ensures [unique] pmUnique(pm)
+//@ ensures [unlocked] held(pm.mu) == 0
+//@ loop 1 invariant pm != nil && held(pm.mu) == -1 && 0 <= rangeindex + 1 && rangeindex + 1 <= len(pm.mappings) && pm.mappings == old(pm.mappings) && forall(a, lo(pm), hi(pm), absidx(pm.mappings, a) == old(absidx(pm.mappings, a)), absidx(pm.mappings, a))
+//@ loop 1 invariant forall(a, lo(pm), lo(pm) + rangeindex + 1, !pmMatch(absidx(pm.mappings, a), prog, vers, prot), absidx(pm.mappings, a))
+
+//@ func Portmapper.UnregisterService
+//@ prop C27
+//@ requires pm != nil && pmUnique(pm)
+//@ modifies pm.mappings, elems(PortMapping), locks
+//@ ensures [absent-noop] !old(pmHas(pm, prog, vers, prot)) ==> pmSame(pm)
+//@ ensures [others-kept-in-order] old(pmHas(pm, prog, vers, prot)) ==> arr(pm.mappings) == old(arr(pm.mappings)) && lo(pm) == old(lo(pm)) && len(pm.mappings) == old(len(pm.mappings)) - 1 && exists(i, lo(pm), hi(pm) + 1, pmMatch(old(absidx(pm.mappings, i)), prog, vers, prot) && forall(a, lo(pm), hi(pm), absidx(pm.mappings, a) == ite(a < i, old(absidx(pm.mappings, a)), old(absidx(pm.mappings, a + 1))), absidx(pm.mappings, a)))
+//@ ensures [removed] !pmHas(pm, prog, vers, prot)
+//@ ensures [unique] pmUnique(pm)
+//@ ensures [unlocked] held(pm.mu) == 0
+//@ loop 1 invariant pm != nil && held(pm.mu) == -1 && 0 <= rangeindex + 1 && rangeindex + 1 <= len(pm.mappings) && pm.mappings == old(pm.mappings) && forall(a, lo(pm), hi(pm), absidx(pm.mappings, a) == old(absidx(pm.mappings, a)), absidx(pm.mappings, a))
+//@ loop 1 invariant forall(a, lo(pm), lo(pm) + rangeindex + 1, !pmMatch(absidx(pm.mappings, a), prog, vers, prot), absidx(pm.mappings, a))
+
+//@ func Portmapper.GetPort
+//@ prop C27
+//@ requires pm != nil
+//@ modifies locks
+//@ ensures [absent-zero] !pmHas(pm, prog, vers, prot) ==> result == 0
+//@ ensures [present] pmHas(pm, prog, vers, prot) ==> pmMaps(pm, prog, vers, prot, result)
+//@ ensures [unlocked] held(pm.mu) == 0
+//@ loop 1 invariant pm != nil && held(pm.mu) == 1 && 0 <= rangeindex + 1 && rangeindex + 1 <= len(pm.mappings)
+//@ loop 1 invariant forall(a, lo(pm), lo(pm) + rangeindex + 1, !pmMatch(absidx(pm.mappings, a), prog, vers, prot), absidx(pm.mappings, a))
+
+//@ func Portmapper.GetMappings
+//@ prop C27
+//@ requires pm != nil
+//@ modifies locks
+//@ ensures [copy] len(result) == len(pm.mappings) && forall(a, off(result), off(result) + len(result), absidx(result, a) == absidx(pm.mappings, lo(pm) + (a - off(result))), absidx(result, a)) && (len(result) > 0 ==> fresh(result))
+//@ ensures [unlocked] held(pm.mu) == 0
+
+//@ func Portmapper.handleSet
+//@ prop C27
+//@ requires pm != nil && pmUnique(pm)
+//@ ensures [loopback-only] !mayModify(remoteAddr) ==> pmSame(pm)
+//@ ensures [unique] pmUnique(pm)
+
+//@ func Portmapper.handleUnset
+//@ prop C27
+//@ requires pm != nil && pmUnique(pm)
+//@ ensures [loopback-only] !mayModify(remoteAddr) ==> pmSame(pm)
+//@ ensures [unique] pmUnique(pm)
+
+//@ func Portmapper.handleCall
+//@ prop C27
+//@ requires pm != nil && pmUnique(pm)
+// a client not on a loopback address can never change the map, through any protocol version or procedure
+//@ ensures [nonloopback-frame] !mayModify(remoteAddr) ==> pmSame(pm)
+//@ ensures [unique] pmUnique(pm)
+
+//@ func Portmapper.handleRpcbSet
+//@ prop C27
+//@ requires pm != nil && pmUnique(pm)
+//@ ensures [unique] pmUnique(pm)
+
+//@ func Portmapper.handleRpcbUnset
+//@ prop C27
+//@ requires pm != nil && pmUnique(pm)
+//@ ensures [unique] pmUnique(pm)
+
+// ---- reply encoders: byte-level shapes (sbe32 reads a big-endian word of a byte slice)
+//@ func Portmapper.encodeBool
+//@ prop C27
+//@ ensures [shape] len(result) == 4 && sbe32(result, 0) == ite(v, 1, 0)
+
+//@ func Portmapper.encodePort
+//@ prop C27
+//@ ensures [shape] len(result) == 4 && sbe32(result, 0) == port
+
+// RFC 1831 reply: xid, REPLY(1), MSG_ACCEPTED(0), verf(flavor 0, length 0), accept_stat, then results
+// (SUCCESS) or mismatch_info (PROG_MISMATCH) or nothing.
+//@ func Portmapper.makeReply
+//@ prop C27 C14
+//@ ensures [header] len(result) >= 24 && sbe32(result, 0) == xid && sbe32(result, 4) == 1 && sbe32(result, 8) == 0 && sbe32(result, 12) == 0 && sbe32(result, 16) == 0
+//@ ensures [accept-stat] sbe32(result, 20) == ite(status == 0, 0, status)
+//@ ensures [success-body] status == 0 ==> len(result) == 24 + len(data) && forall(a, off(result) + 24, off(result) + 24 + len(data), absidx(result, a) == data[a - off(result) - 24], absidx(result, a))
+//@ ensures [mismatch-info] status == 2 ==> len(result) == 32 && sbe32(result, 24) == 2 && sbe32(result, 28) == 4
+//@ ensures [other-empty] status != 0 && status != 2 ==> len(result) == 24
+
+//@ func Portmapper.handleGetPort
+//@ prop C27
+//@ requires pm != nil
+// GETPORT reports exactly the current registration (0 when absent or when the arguments do not decode)
+//@ ensures [shape] len(result) == 4
+//@ ensures [absent-zero] sbe32(result, 0) != 0 ==> exists(a, lo(pm), hi(pm), absidx(pm.mappings, a).Port == sbe32(result, 0), absidx(pm.mappings, a))
+//@ ensures [registry-untouched] pmSame(pm)
